@@ -256,7 +256,10 @@ def analyse_unit(name, canary=False, rlimit=None, seed=None):
                              "text": re.sub(r"\s+", " ", clause["text"])[:300], "src": f"{f['file']}:{f['line']}",
                              "status": "discharged"}
                 if start is not None:
-                    clause_lines.setdefault(key, []).append((start + clause["line"] - lead, oid))
+                    ln_abs = start + clause["line"] - lead
+                    first_line = clause["text"].split("\n")[0].strip()
+                    col = lines[ln_abs - 1].find(first_line[:40]) + 1 if 0 < ln_abs <= len(lines) else 0
+                    clause_lines.setdefault(key, []).append((ln_abs, col, oid))
     # functions generated by a macro_rules body (e.g. delegate!): verified against the inherited trait contract
     for (ln, k, kind) in fn_at:
         if kind == "repo" and k.startswith("macro ") and "::" in k:
@@ -306,6 +309,7 @@ def analyse_unit(name, canary=False, rlimit=None, seed=None):
             continue
         prim = [s for s in d.get("spans", []) if s.get("is_primary")]
         ln = prim[0]["line_start"] if prim else 0
+        col0 = prim[0].get("column_start", 0) if prim else 0
         allspans = [(s["line_start"], s.get("label")) for s in d.get("spans", [])]
         k = None
         if any(msg.startswith(x) or x in msg for x in DEFINITE):
@@ -322,7 +326,7 @@ def analyse_unit(name, canary=False, rlimit=None, seed=None):
                 if lab.startswith("at the end of the function body") or lab.startswith("at this exit"):
                     fnk, kind = fn_of_line(s_["line_start"])
                     break
-        rec = {"msg": msg, "line": ln, "fn": fnk, "fn_kind": kind, "class": k,
+        rec = {"msg": msg, "line": ln, "col": col0, "fn": fnk, "fn_kind": kind, "class": k,
                "rendered": d.get("rendered", "")[:3000], "spans": allspans}
         if k == "hard":
             hard.append(rec)
@@ -360,8 +364,8 @@ def analyse_unit(name, canary=False, rlimit=None, seed=None):
         target = None
         if f["msg"].startswith("postcondition not satisfied"):
             cls = sorted(clause_lines.get(key, []))
-            for (ln, oid) in cls:
-                if ln <= f["line"]:
+            for (ln, col, oid) in cls:
+                if ln < f["line"] or (ln == f["line"] and col <= max(f.get("col", 0), 1)):
                     target = oid
         if target is None and f["msg"].startswith("postcondition not satisfied") and 0 < f["line"] <= len(lines):
             # clause of an inherited (trait) contract: tags on the clause line decide the property
